@@ -237,6 +237,51 @@ theorem c03_final_resolve_before_destroy :
     ∧ (positions Generated.plainAccesses "async_promise::final_awaiter" "await_suspend" ["call:destroy"]).length = 1
     ∧ (positions Generated.plainAccesses "async_promise::final_awaiter" "await_suspend" ["call:resolve"]).length ≥ 1 := by decide
 
+
+/-! ## Completeness of the tie and atomicity shapes -/
+
+/-- sites that take part in no publication (initialisation, same-thread hand-shakes, notifications, claims of an owner token that
+carry no data): (class, function, kind, object) -/
+def otherSites : List (String × String × OpKind × String) := [
+  ("sync_awaiter", "wait_sync", OpKind.wait, "flag"), ("sync_awaiter", "wakeup", OpKind.notify, "flag"),
+  ("future_common", "initialized", OpKind.load, "_awaiter"), ("future_common", "pending", OpKind.load, "_awaiter"),
+  ("future", "get_promise", OpKind.xchg, "_awaiter"),
+  ("promise", "~promise<T>", OpKind.load, "_owner"), ("promise", "claim", OpKind.xchg, "_owner"),
+  ("async::co_awaiter", "await_ready", OpKind.load, "_awaiter"), ("async::co_awaiter", "await_suspend", OpKind.store, "_awaiter"),
+  ("generator::promise_type", "unblock_sync", OpKind.notify, "_block"), ("generator::promise_type", "next_sync", OpKind.store, "_block")
+]
+
+def siteInProtocols (s : Site) : Bool :=
+  protocols.any (fun p =>
+    let hit (r : SiteRef) : Bool := r.cls == s.cls && r.fn == s.fn && r.kind == s.kind
+    hit p.pub || hit p.obs || (match p.fence with | some f => hit f | none => false) || (match p.mid with | some m => hit m | none => false))
+
+/-- every synchronising operation found in the source is either part of a listed protocol or a listed non-publishing site:
+a NEW atomic operation (e.g. an exchange split into load + store, a new flag) is not silently outside the analysis -/
+def sitesAccounted (tbl : List Site) : Bool :=
+  tbl.all (fun s => s.inAssert || siteInProtocols s ||
+    otherSites.any (fun o => o.1 == s.cls && o.2.1 == s.fn && o.2.2.1 == s.kind && o.2.2.2 == s.obj))
+
+theorem c03_sites_accounted : sitesAccounted Generated.atomicSites = true := by decide
+
+/-- the non-assert synchronising operations of one function, as (kind, object) in source order -/
+def shapeOf (tbl : List Site) (cls fn : String) : List (OpKind × String) :=
+  (tbl.filter (fun s => s.cls == cls && s.fn == fn && !s.inAssert)).map (fun s => (s.kind, s.obj))
+
+/-- the claim / detach / test-and-set steps are single read-modify-write operations (not a load followed by a store) -/
+theorem c03_rmw_shapes :
+    shapeOf Generated.atomicSites "promise" "claim" = [(OpKind.xchg, "_owner")]
+    ∧ shapeOf Generated.atomicSites "awaiter" "resume_chain" = [(OpKind.xchg, "chain")]
+    ∧ shapeOf Generated.atomicSites "awaiter" "resume_chain_set_ready" = [(OpKind.xchg, "chain")]
+    ∧ shapeOf Generated.atomicSites "awaiter" "subscribe" = [(OpKind.cas, "chain")]
+    ∧ shapeOf Generated.atomicSites "awaiter" "subscribe_check_ready" = [(OpKind.cas, "chain"), (OpKind.fence, "")]
+    ∧ shapeOf Generated.atomicSites "mutex" "ready" = [(OpKind.cas, "_requests")]
+    ∧ shapeOf Generated.atomicSites "mutex" "subscribe" = [(OpKind.cas, "_requests")]
+    ∧ shapeOf Generated.atomicSites "mutex" "build_queue" = [(OpKind.xchg, "_requests")]
+    ∧ shapeOf Generated.atomicSites "mutex" "unlock" = [(OpKind.cas, "_requests")]
+    ∧ shapeOf Generated.atomicSites "reusable_storage_mtsafe" "alloc" = [(OpKind.xchg, "_busy")]
+    ∧ shapeOf Generated.atomicSites "reusable_storage_mtsafe" "dealloc" = [(OpKind.store, "_busy")] := by decide
+
 /-- non-vacuity: the current table resolves every protocol -/
 example : (protocols.map (fun p => (ordersOf Generated.atomicSites p).isSome)).all id = true := by decide
 
